@@ -101,7 +101,7 @@ FreshIn(S) == (CHOOSE n \in 100001..100200 : n \notin S)
 Pick(b, S) == IF b # 0 THEN b ELSE FreshIn(S)
 
 ApplyAllowed(i, b) ==
-  CASE i.op = "skip" -> UNCHANGED vars
+  CASE i.op = "skip" -> Commit(Cur)
     [] i.op = "snap" -> Commit(Cur)
     [] i.op = "join" ->
          /\ i.s \notin DOMAIN sess
@@ -140,6 +140,7 @@ ApplyAllowed(i, b) ==
     [] i.op = "inverror" -> Live(i.s) /\ Commit(InvErrorFx(Cur, i.s, i.id, i.o.err, i.tag))
     [] i.op = "leave"    -> Live(i.s) /\ Commit(LeaveFx(Cur, i.s, i.how, ""))
     [] i.op = "advance"  -> Commit(AdvanceFx(Cur, i.ms))
+    [] i.op = "rmrealm"  -> Commit(CloseRealmFx(Cur))
     [] i.op = "metacall" ->
          /\ Live(i.s)
          /\ \E pick \in (IF b.reg # 0 THEN {b.reg} ELSE {regs[k].id : k \in BestRegs(Cur, i.uri2)} \cup {0}) :
@@ -159,7 +160,7 @@ Apply(i, b) ==
 IsEvent(e) == l <= Len(TraceLog) /\ TraceLog[l].ev = e /\ l' = l + 1
 
 TrReset == /\ IsEvent("reset")
-           /\ Commit(StateOf(TraceLog[l].cfg))
+           /\ Commit([StateOf(TraceLog[l].cfg) EXCEPT !.now = TraceLog[l].now])   \* realms may be created at any time
 
 \* C05: the verif snapshot (table sizes relative to the sizes right after router
 \* start, router goroutines relative to the count right after start) against
@@ -177,7 +178,9 @@ SnapOK(r) ==
 TrStep == /\ IsEvent("step")
           /\ LET r == TraceLog[l] IN
                /\ Apply(r.in, r.bind)
-               /\ Explain \/ "snap" \notin Classes \/ SnapOK(r)
+               /\ "snap" \notin Classes \/ SnapOK(r)
+                  \/ (Explain /\ PrintT(<<"MISMATCH", ToJson([line |-> l, scn |-> r.scn, snapshot |-> r.snap, gor |-> r.gor,
+                                                               joined |-> Cardinality(Joined(Cur)), expected |-> <<>>, logged |-> <<>>])>>))
                /\ now' = r.now            \* the virtual clock is part of the observation
                /\ r.badids = 0            \* every id seen so far lies in [1, 2^53] (C19)
                /\ Check(out', r)
